@@ -21,6 +21,20 @@ for line in p.stdout.splitlines():
         res[e['Package'] + '::' + e['Test']] = e['Action']
 want = [t for t in stable if t.split('::')[0] in pkgs]
 bad = [t for t in want if res.get(t) != 'pass']
+# timing-dependent tests (the suite itself calls some "not fully deterministic"): retry their packages
+for attempt in range(3):
+    if not bad:
+        break
+    for pkg in sorted({t.split('::')[0] for t in bad}):
+        q = subprocess.run(['go', 'test', '-json', '-vet=off', '-count=1', '-timeout', '25m', pkg], cwd='/repo', env=env, capture_output=True, text=True)
+        for line in q.stdout.splitlines():
+            try:
+                e = json.loads(line)
+            except Exception:
+                continue
+            if e.get('Test') and e.get('Action') == 'pass':
+                res[e['Package'] + '::' + e['Test']] = 'pass'
+    bad = [t for t in want if res.get(t) != 'pass']
 print(f"baseline: {len(want)} stable tests in scope, {len(want)-len(bad)} passed")
 for t in sorted(bad):
     print("  NOT PASSING:", t, res.get(t))
